@@ -5,7 +5,7 @@
 set -u
 W=$1; shift
 IDS=${@:-C01 C02 C03 C04 C05 C06 C07 C08 C09 C10 C11 C12 C13 C14 C15 C16 C17 C18}
-cleanup() { cd /verif && git checkout -q -- evidence harness/.cargo/config.toml lean/CfbVerif/Gen 2>/dev/null; }
+cleanup() { cd /verif && git checkout -q -- evidence harness/.cargo/config.toml 2>/dev/null; python3 /verif/tools/gen_lean.py --repo /repo >/dev/null 2>&1; }
 trap cleanup EXIT
 for c in $IDS; do
   VERIF_REPO=$W /verif/bin/check $c 2>&1 | grep -E "VIOLATION|^C[0-9]+:|unchecked|KNOWN" | cut -c1-200 | head -6
